@@ -182,7 +182,99 @@ func (e *Engine) tableDef(spec string) (string, error) {
 
 // ---------- immutable scalar globals ----------
 
+// sliceLiteralBytes recognises `g = []byte{c0, c1, ...}` in a package initialiser: the stored value is a slice of a
+// fresh array whose elements are stored as constants.
+func sliceLiteralBytes(v ssa.Value) ([]byte, bool) {
+	sl, ok := v.(*ssa.Slice)
+	if !ok || sl.Low != nil || sl.High != nil {
+		return nil, false
+	}
+	al, ok := sl.X.(*ssa.Alloc)
+	if !ok {
+		return nil, false
+	}
+	at, ok := al.Type().(*types.Pointer).Elem().Underlying().(*types.Array)
+	if !ok {
+		return nil, false
+	}
+	if b, ok := at.Elem().Underlying().(*types.Basic); !ok || b.Kind() != types.Uint8 {
+		return nil, false
+	}
+	out := make([]byte, at.Len())
+	for _, r := range *al.Referrers() {
+		switch t := r.(type) {
+		case *ssa.IndexAddr:
+			ic, ok := t.Index.(*ssa.Const)
+			if !ok {
+				return nil, false
+			}
+			for _, rr := range *t.Referrers() {
+				st, ok := rr.(*ssa.Store)
+				if !ok {
+					return nil, false
+				}
+				c, ok := st.Val.(*ssa.Const)
+				if !ok {
+					return nil, false
+				}
+				out[ic.Int64()] = byte(c.Int64())
+			}
+		case *ssa.Slice, *ssa.DebugRef:
+		default:
+			return nil, false
+		}
+	}
+	return out, true
+}
+
+// readOnlyUses: every use of the loaded slice value only reads its elements (source of append/copy, conversion to
+// string, len/cap, indexing for a load); then the literal's bytes never change.
+func readOnlyUses(v ssa.Value) bool {
+	refs := v.Referrers()
+	if refs == nil {
+		return true
+	}
+	for _, r := range *refs {
+		switch t := r.(type) {
+		case *ssa.DebugRef:
+		case *ssa.Convert:
+			if b, ok := t.Type().Underlying().(*types.Basic); !ok || b.Info()&types.IsString == 0 {
+				return false
+			}
+		case *ssa.Call:
+			b, ok := t.Call.Value.(*ssa.Builtin)
+			if !ok {
+				return false
+			}
+			switch b.Name() {
+			case "len", "cap":
+			case "append", "copy":
+				if len(t.Call.Args) < 2 || t.Call.Args[0] == v {
+					return false
+				}
+			default:
+				return false
+			}
+		case *ssa.IndexAddr:
+			for _, rr := range *t.Referrers() {
+				if u, ok := rr.(*ssa.UnOp); !ok || u.Op != token.MUL {
+					if _, dbg := rr.(*ssa.DebugRef); !dbg {
+						return false
+					}
+				}
+			}
+		case *ssa.Store:
+			return false
+		default:
+			return false
+		}
+	}
+	return true
+}
+
 type globalConst struct {
+	bytes        []byte // kind "bytes": a []byte literal whose elements are never written
+	elemsWritten bool
 	immutable bool
 	kind      string // "const", "sentinel", "unknown"
 	val       *ssa.Const
@@ -266,8 +358,16 @@ func (e *Engine) globalConstInfo(g *ssa.Global) *globalConst {
 							if c, ok := v.X.(*ssa.Const); ok {
 								gc.kind, gc.val = "const", c
 							}
+						case *ssa.Slice:
+							if bs, ok := sliceLiteralBytes(v); ok {
+								gc.kind, gc.bytes = "bytes", bs
+							}
 						}
-					case *ssa.UnOp, *ssa.DebugRef:
+					case *ssa.UnOp:
+						if t.Op == token.MUL && !readOnlyUses(t) {
+							gc.elemsWritten = true
+						}
+					case *ssa.DebugRef:
 					default:
 						gc.immutable = false // address escapes
 					}
@@ -276,6 +376,9 @@ func (e *Engine) globalConstInfo(g *ssa.Global) *globalConst {
 		}
 	}
 	if nInit > 1 {
+		gc.kind = "unknown"
+	}
+	if gc.kind == "bytes" && gc.elemsWritten {
 		gc.kind = "unknown"
 	}
 	return gc
